@@ -78,6 +78,35 @@ Theorem C28_returned_votes_le_unused : forall B fee s others value,
 Proof. exact returned_votes_le_unused. Qed.
 Print Assumptions C28_returned_votes_le_unused.
 
+(* Block by block, with lock times, renewals and the expiry sweep of
+   State.processTransactions (one stake address, at most one of its transactions
+   per block): over all block lists the DPoS v2 votes in use are exactly the
+   votes still locked on producers, and 0 <= used <= vote rights.  Hypotheses:
+   a new vote carries a fresh id, stakes are non-negative and sum below 2^62. *)
+Theorem C28_used_votes_equal_locked_votes : forall fee bs B s,
+  0 <= fee ->
+  (NoDup (map v_id (vs_votes s)) /\ Forall (fun v => 0 < v_amt v) (vs_votes s) /\
+   vs_used s = locked_sum (vs_votes s) /\ locked_sum (vs_votes s) <= vs_rights s /\ vs_rights s <= B) ->
+  bops_ok fee s bs = true -> B + bcosts bs < 4611686018427387904 ->
+  let s' := brun fee s bs in
+  vs_used s' = locked_sum (vs_votes s') /\ 0 <= vs_used s' <= vs_rights s'.
+Proof. exact used_equals_locked_votes. Qed.
+Print Assumptions C28_used_votes_equal_locked_votes.
+
+(* Non-vacuity of the block theorem: stake, vote 600 until 20, renew it in block
+   21 (the block in which it would expire) until 30, it expires in block 31. *)
+Example C28_blocks_nonvacuous :
+  let bs := [(7, Some (BStake 1000)); (8, Some (BVote 1 600 20)); (20, None);
+             (21, Some (BRenew 1 30)); (22, Some (BVote 2 400 40)); (30, None); (31, None)] in
+  let s0 := {| vs_rights := 0; vs_used := 0; vs_votes := [] |} in
+  bops_ok 10 s0 bs = true /\
+  brun 10 s0 (firstn 5 bs) =
+    {| vs_rights := 1000; vs_used := 1000;
+       vs_votes := [{| v_id := 2; v_amt := 400; v_lock := 40 |}; {| v_id := 1; v_amt := 600; v_lock := 30 |}] |} /\
+  brun 10 s0 bs =
+    {| vs_rights := 1000; vs_used := 400; vs_votes := [{| v_id := 2; v_amt := 400; v_lock := 40 |}] |}.
+Proof. vm_compute. repeat split; reflexivity. Qed.
+
 (* The code as found (before /repo 5f4201e9) compared the wrapped int64 sum of
    the votes once: a stake address with 100 sela of vote rights casts 4 x 2^62
    votes (sum = 0 mod 2^64).  Replayed on the real Voting.SpecialContextCheck,
